@@ -39,7 +39,8 @@ GRIDS['adjacent'] = [710, 760, 810, 860]              # starts 10 nm above the e
 GRIDS['nonuni4'] = [400, 420, 460, 700]              # as many samples as the 100 nm grid over its range, but elsewhere
 GRIDS['u4'] = [400, 500, 600, 700]
 GRIDS['shifted'] = [420, 520, 620, 720]              # union span / step is not an integer
-PAIRS = [('A', 'signed'), ('A', 'adjacent'), ('nonuni4', 'u4'), ('u4', 'nonuni4'), ('A', 'shifted'), ('intA', 'nested'), ('intA', 'intnested'), ('A', 'same'), ('A', 'nested'), ('A', 'partial'), ('A', 'disjoint'), ('A', 'nonuniform'), ('nonuniform', 'nested'),
+GRIDS['nonuni_late'] = [400, 480, 500, 510, 700]      # the smallest interval is neither the first nor the last (w8-C13-2)
+PAIRS = [('nonuni_late', 'u4'), ('u4', 'nonuni_late'), ('A', 'signed'), ('A', 'adjacent'), ('nonuni4', 'u4'), ('u4', 'nonuni4'), ('A', 'shifted'), ('intA', 'nested'), ('intA', 'intnested'), ('A', 'same'), ('A', 'nested'), ('A', 'partial'), ('A', 'disjoint'), ('A', 'nonuniform'), ('nonuniform', 'nested'),
          ('nested', 'A'), ('partial', 'nonuniform')]
 
 
@@ -471,7 +472,7 @@ def t_scalar(arg, acc):
 
 
 def run(tier, seed, acc, procs=None):
-    pairs = PAIRS if tier != 'quick' else PAIRS[:13]
+    pairs = PAIRS if tier != 'quick' else PAIRS[:15]
     tasks = [('t_pair', {'tier': tier, 'seed': seed, 'pair': list(p), 'op': o}) for p in pairs for o in OPS]
     tasks.append(('t_scalar', {'seed': seed}))
     acc.states += 1
